@@ -445,30 +445,49 @@ class CFG:
     def _rewire_one_trip(self):
         """nifty.h's with()/if_with() expand to `for (decl, *__epN = (void*)1; __epN [&& cond]; __epN = 0)`:
         a block that runs exactly once.  The test block's false edge is dead on entry (the guard is 1) and
-        the increment block leaves the construct (the guard is 0), so the construct is not a loop."""
-        import re
+        the increment block leaves the construct (the guard is 0), so the construct is not a loop.  The guard is recognised by its
+        shape, not its name: a variable whose only definitions are a non-zero constant initialiser and assignments of 0."""
+        defs = {}
+        for b2 in self.blocks.values():
+            for e in b2.elems:
+                x = e["x"]
+                if not isinstance(x, dict):
+                    continue
+                for l, kind, n in writes(x):
+                    l_ = strip_casts(l)
+                    if l_.get("k") != "ref":
+                        continue
+                    if kind == "decl":
+                        v = int_value(n["init"]) if n.get("init") is not None else None
+                        defs.setdefault(l_["n"], []).append(("init", v, b2))
+                    elif kind == "assign" and n.get("k") == "bin" and n["op"] == "=" and is_int(n["r"], 0):
+                        defs.setdefault(l_["n"], []).append(("zero", 0, b2))
+                    else:
+                        defs.setdefault(l_["n"], []).append(("other", None, b2))
+                for l in addr_taken(x):
+                    l_ = strip_casts(l)
+                    if l_.get("k") == "ref":
+                        defs.setdefault(l_["n"], []).append(("other", None, b2))
         for blk in self.blocks.values():
             if len(blk.succs) != 2 or not blk.elems:
                 continue
             last = blk.elems[-1]["x"]
-            if not (isinstance(last, dict) and last.get("k") == "ref" and re.fullmatch(r"__ep\d+", last.get("n", ""))):
+            if not (isinstance(last, dict) and last.get("k") == "ref" and last.get("dk") == "local"):
                 continue
             guard = last["n"]
+            ds = defs.get(guard, [])
+            if not ds or any(k == "other" for k, v, b2 in ds) or sum(1 for k, v, b2 in ds if k == "init") != 1 \
+                    or not any(k == "init" and v not in (None, 0) for k, v, b2 in ds):
+                continue
             out = blk.succs[1]
             if out is None:
                 continue
-            incs = []
-            for b2 in self.blocks.values():
-                for e in b2.elems:
-                    x = e["x"]
-                    if isinstance(x, dict) and x.get("k") == "bin" and x["op"] == "=" and isinstance(x["l"], dict) \
-                            and x["l"].get("k") == "ref" and x["l"].get("n") == guard and is_int(x["r"], 0):
-                        incs.append(b2)
+            incs = [b2 for k, v, b2 in ds if k == "zero"]
             if not incs:
                 continue
             blk.dead.add(1)
             for b2 in incs:
-                b2.succs = [out if s == blk.id else s for s in b2.succs]
+                b2.succs = [out if s_ == blk.id else s_ for s_ in b2.succs]
             self.one_trip.append((blk.id, guard))
 
     # -- element access ---------------------------------------------------
